@@ -1,8 +1,6 @@
 package ledger
 
 import (
-	"errors"
-
 	"github.com/uptrace/bun"
 
 	ledger "github.com/formancehq/ledger/internal"
@@ -145,7 +143,7 @@ func (h aggregatedBalancesResourceRepositoryHandler) ResolveFilter(_ common.Reso
 }
 
 func (h aggregatedBalancesResourceRepositoryHandler) Expand(_ common.ResourceQuery[ledger.GetAggregatedVolumesOptions], property string) (*bun.SelectQuery, *common.JoinCondition, error) {
-	return nil, nil, errors.New("no expand available for aggregated balances")
+	return nil, nil, common.NewErrInvalidQuery("no expand available for aggregated balances")
 }
 
 func (h aggregatedBalancesResourceRepositoryHandler) Project(
